@@ -84,6 +84,12 @@ class Report:
             fn(*args)
         except AnalysisError as e:
             self.analysis_errors.append(f"{getattr(fn, '__name__', '?')}: {e}")
+        except Exception as e:  # a crash of one rule group is "cannot decide" for that group, never a verdict, and it
+            # must not erase what the other groups found
+            import traceback
+
+            traceback.print_exc()
+            self.analysis_errors.append(f"{getattr(fn, '__name__', '?')}: internal error in the checker ({type(e).__name__}: {str(e)[:120]})")
 
     def rule(self, rule: str, description: str, floor: int | None = None) -> RuleResult:
         r = RuleResult(rule, description, floor=floor)
